@@ -401,7 +401,12 @@ class Gen:
         # class with members named like everything else
         self.out('struct C {')
         self.ind += 1
-        mem = rng.sample(NAMES, 3)
+        pool = NAMES
+        if 'member-vs-global' in self.excl:
+            # finding: in an out-of-class method definition an unqualified member name is bound to a global
+            # variable of the same name
+            pool = [n for n in NAMES if n not in self.glob.syms]
+        mem = rng.sample(pool, min(3, len(pool)))
         for m in mem:
             self.out('int %s;' % m)
         self.out('static int s;')
